@@ -823,9 +823,12 @@ func c08Dense(rec *kit.Rec, u *c08Universe) {
 	var names []string
 	type target struct{ name, pattern string }
 	var targets []target
-	for d := 0; d < 60; d++ {
+	for d := 0; d < 90; d++ {
 		var b strings.Builder
 		n := 40 + R.IntN(90)
+		if d%3 == 2 {
+			n = R.IntN(12) // short documents that start far behind a sampled offset
+		}
 		for i := 0; i < n; i++ {
 			b.WriteRune(unicode.ToLower(wide[R.IntN(len(wide))]))
 		}
